@@ -402,6 +402,10 @@ neutral("N.delete-policy-inspect", 'policy delete credits the usage through Resu
         ('memcrs/src/memcache/random_policy.rs', '        let result = self.store.delete(key, header);\n        if let Ok(record) = &result {\n            self.decr_mem_usage(record.len() as u64);\n        }\n        result', '        self.store.delete(key, header).inspect(|record| {\n            self.decr_mem_usage(record.len() as u64);\n        })'))
 neutral("N.ms-get-override", "MemoryStore overrides Cache::get with the same two steps",
         ('memcrs/src/memory_store/store.rs', 'impl Cache for MemoryStore {\n', 'impl Cache for MemoryStore {\n    fn get(&self, key: &KeyType) -> Result<Record> {\n        let record = impl_details::CacheImplDetails::get_by_key(self, key)?;\n        if impl_details::CacheImplDetails::check_if_expired(self, key, &record) {\n            return Err(CacheError::NotFound);\n        }\n        Ok(record)\n    }\n\n'))
+neutral("N.ms-hit-counter", 'a statistics counter (second AtomicU64) in MemoryStore',
+        ('memcrs/src/memory_store/store.rs', '    cas_id: AtomicU64,\n}', '    cas_id: AtomicU64,\n    lookups: AtomicU64,\n}'), ('memcrs/src/memory_store/store.rs', '            cas_id: AtomicU64::new(1),\n', '            cas_id: AtomicU64::new(1),\n            lookups: AtomicU64::new(0),\n'), ('memcrs/src/memory_store/store.rs', '    fn get_by_key(&self, key: &KeyType) -> Result<Record> {\n', '    fn get_by_key(&self, key: &KeyType) -> Result<Record> {\n        self.lookups.fetch_add(1, Ordering::Relaxed);\n'))
+neutral("N.rp-eviction-counter", 'an eviction counter (second AtomicU64) in RandomPolicy',
+        ('memcrs/src/memcache/random_policy.rs', '    memory_usage: atomic::AtomicU64,\n}', '    memory_usage: atomic::AtomicU64,\n    evictions: atomic::AtomicU64,\n}'), ('memcrs/src/memcache/random_policy.rs', '            memory_usage: atomic::AtomicU64::new(0),\n', '            memory_usage: atomic::AtomicU64::new(0),\n            evictions: atomic::AtomicU64::new(0),\n'), ('memcrs/src/memcache/random_policy.rs', '                    debug!("Evicted: {} bytes from storage", len);\n', '                    debug!("Evicted: {} bytes from storage", len);\n                    self.evictions.fetch_add(1, atomic::Ordering::Relaxed);\n'))
 neutral("N.request-valid-reordered", "request_valid tests in another order and with <=",
         (CODEC, "        if self.header.extras_length > 20 {\n            return false;\n        }\n\n        if self.header.key_length > 250 {\n            return false;\n        }", "        if self.header.key_length >= 251 {\n            return false;\n        }\n\n        if !(self.header.extras_length <= 20) {\n            return false;\n        }"))
 neutral("N.handler-get-key-len-once", "hit response computes key length once",
